@@ -73,7 +73,7 @@ fn build_contexts(ctx: &Ctx, cons: &Consensus, shift: usize) -> Result<Vec<Conte
     let g = genesis_cells(cons);
     let t_old = simple_tx(cons, &g[0..1], 1, 1_000_000, 1);
     let t_far = simple_tx(cons, &g[1..2], 1, 1_000_000, 2);
-    let t_close = simple_tx(cons, &g[2..3], 1, 1_000_000, 3);
+    let t_close = simple_tx(cons, &g[2..3], 1, 2_000_000, 3);
     let t_gap = simple_tx(cons, &g[3..4], 1, 1_000_000, 4);
     let t_none = simple_tx(cons, &g[4..5], 1, 1_000_000, 5);
     // spends the same cell as t_far, proposed as well
@@ -225,13 +225,26 @@ fn build_contexts(ctx: &Ctx, cons: &Consensus, shift: usize) -> Result<Vec<Conte
         {
             let mut q = vec![];
             let mut qp = genesis.clone();
-            for _ in 0..4 + shift {
-                let b = forge.build_on(&qp, &BlockSpec { miner: 21, ts_offset: 21, ..Default::default() })?;
+            for k in 0..4 + shift {
+                // the competing branch proposes and commits t_close itself: when the candidate later
+                // commits [t_far, t_close] the node has verified the second one before (on the
+                // abandoned branch) and the first one never
+                let mut spec = BlockSpec { miner: 21, ts_offset: 21, ..Default::default() };
+                if k == 0 {
+                    spec.proposals = vec![id(&t_close)];
+                }
+                if k == 2 {
+                    spec.txs = vec![t_close.clone()];
+                }
+                let b = forge.build_on(&qp, &spec)?;
                 qp = b.hash();
                 q.push(b);
             }
-            let keep = ["empty", "commit/farthest-edge", "commit/closest-edge", "uncles/one", "header/timestamp=median", "commit/proposed-in-gap", "extension/wrong-root", "reward/+1"];
-            let sub: Vec<Cand> = cands.iter().filter(|c| keep.contains(&c.name.as_str())).map(|c| Cand { name: c.name.clone(), block: c.block.clone(), valid: c.valid }).collect();
+            let keep = ["empty", "commit/farthest-edge", "commit/closest-edge", "commit/both-edges", "uncles/one", "header/timestamp=median", "commit/proposed-in-gap", "extension/wrong-root", "reward/+1"];
+            let mut sub: Vec<Cand> = cands.iter().filter(|c| keep.contains(&c.name.as_str())).map(|c| Cand { name: c.name.clone(), block: c.block.clone(), valid: c.valid }).collect();
+            // the block with both transactions is judged first: at that moment the node has verified
+            // t_close (on the abandoned branch) and has never seen t_far
+            sub.sort_by_key(|c| c.name != "commit/both-edges");
             let chain: Vec<BlockView> = lead.iter().chain(p[..5].iter()).cloned().collect();
             out.push(Context { name: ["tip5-after-detour", "tip6-after-detour", "tip7-after-detour", "tip8-after-detour"][shift], chain, cands: sub, good: good.clone(), good_child: good_child.clone(), detour: q, detour_after: 3 + shift });
         }
@@ -371,6 +384,9 @@ fn run_context(ctx: &Ctx, cons: &Consensus, c: &Context, which: Option<&str>, re
         let new_tip = direct.tip().hash();
         match (&verdict, cand.valid) {
             (Ok(true), true) => {
+                if std::env::var("C03_DEBUG").is_ok() {
+                    println!("   ext: {:?}", direct.shared.store().get_block_ext(&cand.block.hash()).map(|e| e.txs_fees));
+                }
                 if new_tip != cand.block.hash() {
                     report.violation(format!("valid-not-attached/{}", cand.name), format!("{}: accepted but the tip is not the candidate", c.name), label.clone());
                 }
